@@ -662,6 +662,18 @@ func (e *Engine) applyIfaceContract(fr *Frame, st *State, ins ssa.Instruction, c
 			e.addFact(st, g)
 		}
 	}
+	if fr.contract != nil && !fr.ghost && fr.caller == nil {
+		for _, cl := range fr.contract.InvokeRequires[c.Key] {
+			as := append([]Val{}, all...)
+			for _, p := range fr.fn.Params {
+				as = append(as, e.val(fr, p))
+			}
+			g := e.evalWrapper(fr, st, st, e.wrapperFn(fr.contract, cl), as).(*Term)
+			key := e.curFunc + "/invoke/" + name
+			e.safetyN[key]++
+			e.addObligation(fr, st, "pre", fmt.Sprintf("invoke.%s.%s#%d", name, cl.Label, e.safetyN[key]), g, cl)
+		}
+	}
 	pre := st.clone()
 	var targets []*havocTarget
 	everything := false
